@@ -86,33 +86,38 @@ def operator_rules(repo, rep):
                 continue
             rep.analysed(f)
             n += 1
-            ev = Evaluator(repo, opaque=opq)
-            me = Obj(c, {}, origin='param:self')
             scalar = mname in SCALAR or mname in MODS
-            if scalar:
-                other = Rat.sym('k')
-            else:
-                oc = m.classes['DMSAngle' if cname != 'DMSAngle' else 'GONAngle']
-                other = Obj(oc, {}, origin='param:other')
-            got = ev.call_function(f, {f.params[0].name: me, f.params[1].name: other})
-            orc = Oracle(ORACLE, base=repo, opaque=opq)
-            mo = orc.repo.module('geodepy.angles')
-            a = CallV(alg.opaque('call:%s.dec' % cname, ('obj<param:self>',)), '%s.dec' % cname)
-            if scalar:
-                b = Rat.sym('k')
-            else:
-                b = CallV(alg.opaque('call:%s.dec' % oc.name, ('obj<param:other>',)), '%s.dec' % oc.name)
-            x, y = (b, a) if refl else (a, b)
-            want = orc.call('binary', name=Str(cname), op=Str(op), a=x, b=y)
-            r = compare_values(got, want)
-            w = where(f, f.node)
-            desc = '%s.%s = %s of (%s %s %s)' % (cname, mname, cname, 'other' if refl else 'dec(self)', op, 'dec(self)' if refl else ('k' if scalar else 'dec(other)'))
-            if r == 'equal':
-                rep.holds('R-WIRE', key, w, desc)
-            elif r == 'different':
-                rep.violated('R-WIRE', key, w, desc + ': the code computes something else', expected=show(want, 3, 300), actual=show(got, 3, 300))
-            else:
-                rep.undecided('R-WIRE', key, w, desc + ': forms differ but not definitely', expected=show(want, 3, 200), actual=show(got, 3, 200))
+            first = 'DMSAngle' if cname != 'DMSAngle' else 'GONAngle'
+            # "in any mix": the other operand is taken from each of the five classes in turn (the historical key is kept for the first)
+            for ocname in ([None] if scalar else [first] + [x_ for x_ in CLASSES if x_ != first]):
+                ev = Evaluator(repo, opaque=opq)
+                me = Obj(c, {}, origin='param:self')
+                if scalar:
+                    other = Rat.sym('k')
+                else:
+                    oc = m.classes[ocname]
+                    other = Obj(oc, {}, origin='param:other')
+                got = ev.call_function(f, {f.params[0].name: me, f.params[1].name: other})
+                orc = Oracle(ORACLE, base=repo, opaque=opq)
+                mo = orc.repo.module('geodepy.angles')
+                a = CallV(alg.opaque('call:%s.dec' % cname, ('obj<param:self>',)), '%s.dec' % cname)
+                if scalar:
+                    b = Rat.sym('k')
+                else:
+                    b = CallV(alg.opaque('call:%s.dec' % oc.name, ('obj<param:other>',)), '%s.dec' % oc.name)
+                x, y = (b, a) if refl else (a, b)
+                want = orc.call('binary', name=Str(cname), op=Str(op), a=x, b=y)
+                r = compare_values(got, want)
+                w = where(f, f.node)
+                key_ = key if (scalar or ocname == first) else key + '[%s]' % ocname
+                desc = '%s.%s%s = %s of (%s %s %s)' % (cname, mname, '' if scalar else ' with a %s operand' % ocname, cname, 'other' if refl else 'dec(self)', op,
+                                                     'dec(self)' if refl else ('k' if scalar else 'dec(other)'))
+                if r == 'equal':
+                    rep.holds('R-WIRE', key_, w, desc)
+                elif r == 'different':
+                    rep.violated('R-WIRE', key_, w, desc + ': the code computes something else', expected=show(want, 3, 300), actual=show(got, 3, 300))
+                else:
+                    rep.undecided('R-WIRE', key_, w, desc + ': forms differ but not definitely', expected=show(want, 3, 200), actual=show(got, 3, 200))
         for mname, cmp_ in sorted(COMPS.items()):
             f = c.methods.get(mname)
             key = 'R-WIRE::geodepy/angles.py::%s.%s' % (cname, mname)
@@ -121,20 +126,25 @@ def operator_rules(repo, rep):
                 continue
             rep.analysed(f)
             n += 1
-            ev = Evaluator(repo, opaque=opq)
-            me = Obj(c, {}, origin='param:self')
-            oc = m.classes['DMSAngle' if cname != 'DMSAngle' else 'GONAngle']
-            other = Obj(oc, {}, origin='param:other')
-            got = ev.call_function(f, {f.params[0].name: me, f.params[1].name: other})
-            a = alg.opaque('call:%s.dec' % cname, ('obj<param:self>',))
-            b = alg.opaque('call:%s.dec' % oc.name, ('obj<param:other>',))
-            want = {'eq': alg.opaque('eq', (a, b)), 'ne': alg.opaque('ne', (a, b)), 'lt': alg.opaque('lt', (a, b)), 'gt': alg.opaque('lt', (b, a))}[cmp_]
-            w = where(f, f.node)
-            r = compare_values(got, want)
-            if r == 'equal':
-                rep.holds('R-WIRE', key, w, '%s.%s compares dec(self) with dec(other) by %s' % (cname, mname, mname.strip('_')))
-            else:
-                rep.violated('R-WIRE', key, w, '%s.%s is not "dec(self) %s dec(other)"' % (cname, mname, mname.strip('_')), expected=show(want, 3, 200), actual=show(got, 3, 200))
+            first = 'DMSAngle' if cname != 'DMSAngle' else 'GONAngle'
+            for ocname in [first] + [x_ for x_ in CLASSES if x_ != first]:
+                ev = Evaluator(repo, opaque=opq)
+                me = Obj(c, {}, origin='param:self')
+                oc = m.classes[ocname]
+                other = Obj(oc, {}, origin='param:other')
+                got = ev.call_function(f, {f.params[0].name: me, f.params[1].name: other})
+                a = alg.opaque('call:%s.dec' % cname, ('obj<param:self>',))
+                b = alg.opaque('call:%s.dec' % oc.name, ('obj<param:other>',))
+                want = {'eq': alg.opaque('eq', (a, b)), 'ne': alg.opaque('ne', (a, b)), 'lt': alg.opaque('lt', (a, b)), 'gt': alg.opaque('lt', (b, a))}[cmp_]
+                w = where(f, f.node)
+                r = compare_values(got, want)
+                key_ = key if ocname == first else key + '[%s]' % ocname
+                if r == 'equal':
+                    rep.holds('R-WIRE', key_, w, '%s.%s compares dec(self) with dec(other) by %s (other: %s)' % (cname, mname, mname.strip('_'), ocname))
+                else:
+                    rep.violated('R-WIRE', key_, w, '%s.%s with a %s operand is not "dec(self) %s dec(other)": two angle objects are compared through their decimal degrees, whatever '
+                                 'their notation (two HP doubles can differ and still be the same 13-decimal HP value)' % (cname, mname, ocname, mname.strip('_')),
+                                 expected=show(want, 3, 200), actual=show(got, 3, 200))
     rep.floor('R-WIRE', 55, 'operators and comparisons of five classes')
 
 
@@ -284,6 +294,7 @@ def run(repo, rep):
     # the sign of a DMS / DDM result travels as a flag tested by identity: it must be handed on as True / False themselves
     from . import common
     common.identity_flag_rule(repo, rep, 'geodepy.angles')
+    common.ctor_sign_table(repo, rep)
 
 
 def controls(repo):
